@@ -116,7 +116,8 @@ def process_template(path, crate, repo, gen=None, depth=0):
                 body = [ln2 for ln2 in body]
                 for pat, rep in subs:
                     body = [re.sub(pat, rep, ln2) for ln2 in body]
-                arg = parts[0] + ' ' + parts[1]
+                extra = ' '.join(o for o in opts.split() if o.startswith(('auto=', 'props=', 'impl=', 'as=')))
+                arg = parts[0] + ' ' + parts[1] + (' ' + extra if extra else '')
                 j = i
             # region tags inside the sidecar: resolved after weaving (they travel with the text as comments)
             sc = X.Sidecar(arg, body, f'{rel}:{i+1}')
@@ -134,11 +135,20 @@ def process_template(path, crate, repo, gen=None, depth=0):
                                        'props': sc.opts.get('props', '').split(',') if sc.opts.get('props') else [],
                                        'auto': sc.opts.get('auto', '').split(',') if sc.opts.get('auto') else [],
                                        'lost_anchors': lost}
-            ftags = frozenset()
+            side_tags = set()
+            for bl in body + woven:
+                mt2 = re.search(r'//#\s*(.*)$', bl)
+                if mt2:
+                    side_tags.update(t.split(':')[0] for t in mt2.group(1).split() if not t.startswith('@'))
+            gen.functions[out_name]['cone'] = sorted(set(gen.functions[out_name]['props']) | side_tags | set(gen.functions[out_name]['auto']))
+            props = frozenset(gen.functions[out_name]['props'])
+            auto = frozenset(t + ':auto' for t in gen.functions[out_name]['auto'])
+            ftags = props
             for wl in woven:
                 mt = re.search(r'//#\s*(.*)$', wl)
                 if mt:
-                    ftags = frozenset(mt.group(1).split())
+                    tg = mt.group(1).split()
+                    ftags = props if tg == ['@props'] else auto if tg == ['@auto'] else frozenset(tg)
                     wl = wl[:mt.start()].rstrip()
                     if not wl.strip():
                         continue
